@@ -9,11 +9,11 @@ import (
 	"math/rand"
 	"os"
 	"path/filepath"
+	"sort"
 	"strings"
 	"sync"
 	"sync/atomic"
 	"time"
-	"sort"
 	"unicode/utf8"
 
 	at "github.com/DanielSvub/anytype"
@@ -79,18 +79,18 @@ func layoutToks(raw []json.RawMessage) ([]jsonx.LayoutTok, error) {
 }
 
 type docViolation struct {
-	Property string `json:"property"`
-	Message  string `json:"message"`
-	Sig      string `json:"sig"`
-	Check    string `json:"check"`
-	Input    string `json:"input"`
-	Text     string `json:"text,omitempty"`
-	Seed     int64  `json:"seed"`
-	Replay   string `json:"replay,omitempty"`
+	Property string       `json:"property"`
+	Message  string       `json:"message"`
+	Sig      string       `json:"sig"`
+	Check    string       `json:"check"`
+	Input    string       `json:"input"`
+	Text     string       `json:"text,omitempty"`
+	Seed     int64        `json:"seed"`
+	Replay   string       `json:"replay,omitempty"`
 	Tree     *jsonx.CTree `json:"tree,omitempty"`
-	How      int    `json:"how"`
-	Rec      *errRec `json:"rec,omitempty"`
-	Index    int    `json:"index"`
+	How      int          `json:"how"`
+	Rec      *errRec      `json:"rec,omitempty"`
+	Index    int          `json:"index"`
 }
 
 type docStats struct {
